@@ -42,7 +42,7 @@ RULE = ('binary and length matrices, directed and undirected, n=1..8: exhaustive
         '31..80 nodes hanging off one node, one-way or both ways, optionally a second component, labels permuted, n = 52..101, (k-1)^chain > 3.4e38 (beyond binary32) - '
         'through distance_bin, distance_wei (D and hop counts), distance_wei_floyd (SPL and hops), breadthdist, reachdist, efficiency_bin, efficiency_wei, charpath: two instances per '
         'quick run, ten in the thorough tier = the escalated pass on a changed tree (run FIRST there); K50 + chain of 183 + 2-node component (thorough: also K64 + one-way chain of 185), '
-        '(k-1)^chain > 1.8e308 (beyond binary64), through distance_bin / efficiency_bin / reachdist on the arrays as built (open findings *[walk-count-overflow]). '
+        '(k-1)^chain > 1.8e308 (beyond binary64), through distance_bin / efficiency_bin / reachdist on the arrays as built (the defects it found are repaired: aa68b44, 3281ffb). '
         'non-trivial = at least one finite off-diagonal distance; distinct by hash of (kind, matrix)')
 ASSUMES = ['the theorems are over exact rationals: on lengths that are NOT exact in binary64 (1/3, k*ln 2) rounding can separate exactly tied alternatives — one known finding (edge-count-tie) lives exactly there',
            'lengths are small integers or dyadic rationals, so every sum/comparison the model treats as exact is exact in binary64; '
@@ -52,9 +52,9 @@ ASSUMES = ['the theorems are over exact rationals: on lengths that are NOT exact
            'charpath: entries nan, +inf or finite (no -inf, no -0.0); n >= 1 (the masked maximum of the eccentricity raises on a 0x0 matrix); the eccentricity of a row '
            'with nothing selected (isolated node with include_infinite=False) is the fill value 1e20 of numpy.ma and is not judged',
            'reachdist: only ensure_binary=True is modelled; walk counts are exact integers in the model, clipped to 0/1 each round as the code does since repo commit 2cf9619',
-           'distance_bin / efficiency_bin: walk counts are exact integers in the model and binary64 in the code - they agree while (largest eigenvalue)^(diameter) < 1.8e308; beyond that '
-           'the code returns finite distances for unreachable pairs (OPEN findings distance_bin[walk-count-overflow]:min-length, efficiency_bin[walk-count-overflow]:mean-inverse; '
-           'proposed_fixes/distance_bin_overflow.diff, efficiency_bin_overflow.diff clip the power to its support as reachdist does)']
+           'distance_bin / efficiency_bin (own copy of the loop): the matrix power is clipped to its 0/1 support each round, in the code since repo commits aa68b44 / 3281ffb '
+           '(before: walk counts beyond 1.8e308 -> inf * 0 = nan -> finite distances for unreachable pairs on a dense block + tail of ~180 nodes, found by the stress family) '
+           'and in the models (Model/Distance.v dbin_loop, Model/DistanceExt.v dinv_loop; Proofs/DistanceBin.v pow_ok_clip)']
 TRUSTED = ['-log is an abstract function (Section variable) in the theorems; in the extracted run its values are supplied by the harness as a table of the floats NumPy computed']
 
 INF = float('inf')
@@ -1056,10 +1056,6 @@ def blas_threads(k=1):
 
 
 # ---------------------------------------------------------------- stress families: numeric range of the walk counts (oracle only)
-DBIN_OVERFLOW_KEY = 'distance_bin[walk-count-overflow]:min-length'
-EBIN_OVERFLOW_KEY = 'efficiency_bin[walk-count-overflow]:mean-inverse'
-
-
 def clique_chain(k, c, extra=0, one_way=False, perm=None):
     """K_k on nodes 0..k-1, a chain of c nodes hanging off node 0 (one_way: connections point away from the block only, so
     the block is unreachable from the chain), then `extra` nodes forming a path of their own (a second component); node
@@ -1147,8 +1143,11 @@ def judge_big(ctx, fn, R, D, dist, case, key_for=None):
 
 def do_clique_chain(ctx, bct, r, k, c, extra, one_way, overflow64=False):
     """All distance routines on a dense block with a long tail.  (k-1)^c > 3.4e38 (binary32) for every member of the family;
-    overflow64: (k-1)^c > 1.8e308, the walk counts leave binary64 as well (there only the routines that raise the matrix to
-    successive powers are called: distance_bin, efficiency_bin, reachdist)."""
+    overflow64: (k-1)^c > 1.8e308, the walk counts would leave binary64 as well (there only the routines that raise the matrix to
+    successive powers are called: distance_bin, efficiency_bin, reachdist).  This family found the overflow of distance_bin
+    and of efficiency_bin's own loop (466 unreachable pairs with finite distances on K50 + 183 + 2; repaired in repo commits
+    aa68b44 / 3281ffb: the power is clipped to its support each round, as in reachdist since 2cf9619); reverting either
+    commit on a scratch copy gives VIOLATION distance_bin:inf-iff-unreachable / efficiency_bin:mean-inverse."""
     n = k + c + extra
     perm = [int(x) for x in r.permutation(n)]
     An = clique_chain(k, c, extra, one_way, perm)
@@ -1176,11 +1175,10 @@ def do_clique_chain(ctx, bct, r, k, c, extra, one_way, overflow64=False):
     with np.errstate(all='ignore'), blas_threads(1), (no_variants() if overflow64 else contextlib.nullcontext()):
         Db = run_('distance_bin', bct.distance_bin)
         if Db is not None:
-            judge_big(ctx, 'distance_bin', None, Db, dist, case,
-                      {'min-length': DBIN_OVERFLOW_KEY, 'inf-iff-unreachable': DBIN_OVERFLOW_KEY} if overflow64 else None)
+            judge_big(ctx, 'distance_bin', None, Db, dist, case)
         eb = run_('efficiency_bin', bct.efficiency_bin)
         if eb is not None:
-            ctx.check(fclose(eb, eff), EBIN_OVERFLOW_KEY if overflow64 else 'efficiency_bin:mean-inverse',
+            ctx.check(fclose(eb, eff), 'efficiency_bin:mean-inverse',
                       'returned %r, mean inverse BFS distance %r' % (float(eb), eff), case)
         rr = run_('reachdist', bct.reachdist)
         if rr is not None:
